@@ -534,6 +534,19 @@ theorem inv2_helperStep (c : Committee) (s : Node) (d : Digest) (o : Nat) (h : I
       · exact h
       · exact inv2_fail _ _ h
 
+theorem inv2_storeBatch (s : Node) (d : Nat) (h : Inv2 s) : Inv2 (s.storeBatch d) := by
+  unfold storeBatch
+  split
+  · exact h
+  · constructor <;> simp <;> grind [Inv2]
+
+theorem inv2_digestStep (s : Node) (d : Nat) (h : Inv2 s) : Inv2 (s.digestStep d) := by
+  unfold digestStep
+  have h1 := inv2_storeBatch s d h
+  split
+  · exact h1
+  · constructor <;> simp <;> grind [Inv2]
+
 theorem inv2_step (c : Committee) (s : Node) (e : Event) (h1 : Inv1 s) (h : Inv2 s) :
     Inv2 (step c s e) := by
   unfold step
@@ -553,12 +566,8 @@ theorem inv2_step (c : Committee) (s : Node) (e : Event) (h1 : Inv1 s) (h : Inv2
         · constructor <;> simp [Node.pendingBlocks] <;> grind [Inv1, Node.pendingBlocks]
         · constructor <;> simp <;> grind [Inv2]
     · exact inv2_proposerStep s _ h1 h
-    · split
-      · exact h
-      · constructor <;> simp <;> grind [Inv2]
-    · split
-      · exact h
-      · constructor <;> simp <;> grind [Inv2]
+    · exact inv2_digestStep s _ h
+    · exact inv2_storeBatch s _ h
     · split
       · exact h
       · split
